@@ -4,8 +4,8 @@ Import ListNotations.
 From GU Require Import C04.Facts C04.Gen C04.Model.
 
 (* the facts of the repaired code, as a literal so that [simpl] sees through the projections *)
-Notation good := (mkRm true true TTested true true true true true TTested true true true NName true true).
-Notation goodg := (mkGc true true).
+Notation good := (mkRm true true TTested true true true true true TTested true true true NName true true true).
+Notation goodg := (mkGc true true true).
 
 (* ---------- equality tests ---------- *)
 
@@ -1150,10 +1150,10 @@ Definition witness : fsys :=
 Definition noex_n : name -> bool := fun _ => false.
 Definition noex_p : path -> bool := fun _ => false.
 (* the facts of the code before the D10 fix: no Lstat test, everything else as now *)
-Definition before_fix_rm : rm_facts := mkRm false true TTested true true true true true TTested true true true NName true true.
+Definition before_fix_rm : rm_facts := mkRm false true TTested true true true true true TTested true true true NName true true true.
 (* the facts of the code that does not clean the path first (before the trailing-separator fix) *)
-Definition uncleaned_rm : rm_facts := mkRm true true TTested true true true true true TTested true true true NName true false.
-Definition before_fix_gc : gc_facts := mkGc false true.
+Definition uncleaned_rm : rm_facts := mkRm true true TTested true true true true true TTested true true true NName true false true.
+Definition before_fix_gc : gc_facts := mkGc false true true.
 
 Lemma witness_dirs_above : dirs_above witness [nm 3].
 Proof.
